@@ -2,6 +2,7 @@
 spec/Lifecycle.tla; C16 (strain output vs ratings): spec/StrainSkill.tla."""
 import json
 import os
+import time
 import re
 
 import common
@@ -78,10 +79,18 @@ def run_c10(tier):
             os.remove(r["log"])
             tf.write(open(part).read())
             os.remove(part)
+    ref = 0.0
     for fs in ("", "sync"):
         binp = common.build_harness(fs)
         outp = tscen + ".%s.json" % (fs or "default")
-        p = common.run_harness(binp, ["taikocolour-replay", tscen, outp], timeout=7200)
+        t0 = time.time()
+        try:
+            p = common.run_harness(binp, ["taikocolour-replay", tscen, outp], timeout=7200) if fs == "" else common.run_harness_bounded(binp, ["taikocolour-replay", tscen, outp], ref)
+        except common.HarnessHang as h:
+            res.violation("taiko colour replay in the [%s] build: %s" % (fs, h), {"kind": "feature-hang", "features": fs, "what": "taikocolour-replay"})
+            continue
+        if fs == "":
+            ref = time.time() - t0
         log("[%s] %s" % (fs or "default", p.stdout.strip().splitlines()[-1]))
         out = json.load(open(outp))
         os.remove(outp)
@@ -96,8 +105,9 @@ def run_c10(tier):
     # vs Arc / RwLock): TaikoRhythm.tla predicts both levels for every interval sequence over values 5 and 6 ms apart
     rscen = os.path.join(common.OUT, "taikorhythm_%s_%d.ndjson" % (tier, pid))
     with open(rscen, "w") as tf:
-        for (maxlen, ivs) in ([(6, "{100, 105, 106, 111, 200}"), (9, "{100, 105, 111}")] if tier == "quick"
-                              else [(8, "{100, 105, 106, 111, 200}"), (12, "{100, 105, 111}")]):
+        # (0 = notes on one timestamp: infinite / NaN interval ratios in the groups)
+        for (maxlen, ivs) in ([(6, "{100, 105, 106, 111, 200}"), (9, "{100, 105, 111}"), (7, "{0, 4, 100, 200}")] if tier == "quick"
+                              else [(8, "{100, 105, 106, 111, 200}"), (12, "{100, 105, 111}"), (9, "{0, 4, 100, 200}")]):
             cfgp = os.path.join(common.OUT, "MC_TaikoRhythm_%d_%s_%d.cfg" % (maxlen, tier, pid))
             with open(cfgp, "w") as f:
                 f.write("CONSTANTS\n  MaxLen = %d\n  Ivs = %s\nINIT Init\nNEXT Next\nINVARIANT WellFormed\nINVARIANT Printer\nCHECK_DEADLOCK FALSE\n" % (maxlen, ivs))
@@ -112,10 +122,18 @@ def run_c10(tier):
             os.remove(r["log"])
             tf.write(open(part).read())
             os.remove(part)
+    ref = 0.0
     for fs in ("", "sync"):
         binp = common.build_harness(fs)
         outp = rscen + ".%s.json" % (fs or "default")
-        p = common.run_harness(binp, ["taikorhythm-replay", rscen, outp], timeout=7200)
+        t0 = time.time()
+        try:
+            p = common.run_harness(binp, ["taikorhythm-replay", rscen, outp], timeout=7200) if fs == "" else common.run_harness_bounded(binp, ["taikorhythm-replay", rscen, outp], ref)
+        except common.HarnessHang as h:
+            res.violation("taiko rhythm replay in the [%s] build: %s" % (fs, h), {"kind": "feature-hang", "features": fs, "what": "taikorhythm-replay"})
+            continue
+        if fs == "":
+            ref = time.time() - t0
         log("[%s] %s" % (fs or "default", p.stdout.strip().splitlines()[-1]))
         out = json.load(open(outp))
         os.remove(outp)
@@ -128,10 +146,19 @@ def run_c10(tier):
     os.remove(rscen)
     # end to end: the same seeded scenario list in all four feature builds
     dumps = {}
+    ref = 0.0
     for fs in FEATURE_SETS:
         binp = common.build_harness(fs)
         outp = os.path.join(common.OUT, "dump_%s_%s_%d.txt" % (fs.replace(",", "-") or "default", tier, os.getpid()))
-        p = common.run_harness(binp, ["dump-results", outp, "--tier", tier], timeout=7200)
+        t0 = time.time()
+        try:
+            p = common.run_harness(binp, ["dump-results", outp, "--tier", tier], timeout=7200) if fs == "" else common.run_harness_bounded(binp, ["dump-results", outp, "--tier", tier], ref)
+        except common.HarnessHang as h:
+            # a feature build that does not come back where the default build does IS a changed result
+            res.violation("end-to-end workload in the [%s] build: %s" % (fs, h), {"kind": "feature-hang", "features": fs, "what": "dump-results"})
+            continue
+        if fs == "":
+            ref = time.time() - t0
         dumps[fs] = norm_dump(open(outp).read()).splitlines()
         os.remove(outp)
     base = dumps[""]
@@ -139,6 +166,8 @@ def run_c10(tier):
     res.cov["feature_builds"] = len(FEATURE_SETS)
     res.cov["traces_validated_against_impl"] += len(base) * len(FEATURE_SETS)
     for fs in FEATURE_SETS[1:]:
+        if fs not in dumps:
+            continue
         other = dumps[fs]
         if len(other) != len(base):
             raise common.ToolError("dump of build %s has %d lines, default %d" % (fs, len(other), len(base)))
